@@ -12,6 +12,39 @@ use std::ops::{Deref, DerefMut};
 use std::rc::Rc;
 use std::sync::atomic::{AtomicU64, AtomicUsize, Ordering};
 
+pub mod try_result {
+    /// Result of the non-blocking lookups.
+    #[derive(Debug)]
+    pub enum TryResult<R> {
+        Present(R),
+        Absent,
+        Locked,
+    }
+    impl<R> TryResult<R> {
+        pub fn is_present(&self) -> bool {
+            matches!(self, TryResult::Present(_))
+        }
+        pub fn is_absent(&self) -> bool {
+            matches!(self, TryResult::Absent)
+        }
+        pub fn is_locked(&self) -> bool {
+            matches!(self, TryResult::Locked)
+        }
+        pub fn unwrap(self) -> R {
+            match self {
+                TryResult::Present(r) => r,
+                _ => panic!("called `TryResult::unwrap()` on a non-present value"),
+            }
+        }
+        pub fn try_unwrap(self) -> Option<R> {
+            match self {
+                TryResult::Present(r) => Some(r),
+                _ => None,
+            }
+        }
+    }
+}
+
 pub static SHARDS: AtomicUsize = AtomicUsize::new(4);
 pub static SALT: AtomicU64 = AtomicU64::new(0);
 pub const MAX_SHARDS: usize = 4;
@@ -125,6 +158,40 @@ impl<K: Ord + Hash + Eq, V> DashMap<K, V> {
 
     pub fn with_capacity(_n: usize) -> Self {
         Self::new()
+    }
+
+    pub fn try_get<Q>(&self, key: &Q) -> try_result::TryResult<Ref<'_, K, V>>
+    where
+        K: std::borrow::Borrow<Q>,
+        Q: Ord + Hash + ?Sized,
+    {
+        let g = match self.shards[self.shard_of(key)].try_read() {
+            Ok(g) => g,
+            Err(shuttle::sync::TryLockError::Poisoned(e)) => e.into_inner(),
+            Err(shuttle::sync::TryLockError::WouldBlock) => return try_result::TryResult::Locked,
+        };
+        match g.get_key_value(key).map(|(k, v)| (k as *const K, v as *const V)) {
+            Some((k, v)) => try_result::TryResult::Present(Ref { _g: g, k, v }),
+            None => try_result::TryResult::Absent,
+        }
+    }
+
+    pub fn try_get_mut<Q>(&self, key: &Q) -> try_result::TryResult<RefMut<'_, K, V>>
+    where
+        K: std::borrow::Borrow<Q>,
+        Q: Ord + Hash + ?Sized,
+    {
+        let mut g = match self.shards[self.shard_of(key)].try_write() {
+            Ok(g) => g,
+            Err(shuttle::sync::TryLockError::Poisoned(e)) => e.into_inner(),
+            Err(shuttle::sync::TryLockError::WouldBlock) => return try_result::TryResult::Locked,
+        };
+        let k = match g.get_key_value(key).map(|(k, _)| k as *const K) {
+            Some(k) => k,
+            None => return try_result::TryResult::Absent,
+        };
+        let v = g.get_mut(key).map(|v| v as *mut V).expect("present");
+        try_result::TryResult::Present(RefMut { _g: g, k, v })
     }
 
     pub fn remove_if<Q>(&self, key: &Q, f: impl FnOnce(&K, &V) -> bool) -> Option<(K, V)>
